@@ -152,3 +152,14 @@ prop("C05", "The local cache returns exactly the bytes written, at the offsets w
        "quick": {"checks": 1600, "shards": 8, "timeout": 600},
        "thorough": {"checks": 64000, "shards": 16, "timeout": 5400}}],
      CACHE_ASSUME, max_inconclusive=0)
+
+prop("C08", "After an unclean stop the disk cache serves only bytes it truly holds", "fault_enumeration",
+     "a case = segment size 32..128 x max size x verifyCrc x a write sequence on a real StoreChannel (optional snapshot, appends of 1..2 segments incl. exact segment size +-1, collector passes, a new full sync that breaks in the middle). The directory is copied after every step; from each copy the torn images an ordered-write crash can leave are ENUMERATED: "
+     "newest segment truncated to every length 0..size (inside the 16-byte header included), newest segment absent (rotation half done), collector stopped after the snapshot / after each removed segment, snapshot present only as <off>_<size>.rdb.tmp at several lengths and complete-but-not-renamed, and with verifyCrc one altered byte (header crc, header size, first/middle/last data byte) in every closed segment. "
+     "Every image is opened by a fresh StoreChannel. evaluations = images judged; non-trivial = distinct sequence for which a torn (not step-boundary) image still served bytes. "
+     "Oracle (image truth is read from the files: segment left = file name, data = size-16): StartPoint == GetOffsetRange right; every offset of the reported range lies in a segment of the image; right <= newest held byte; every reader the API hands out for an offset it calls valid returns only bytes equal to the byte function and only bytes the image holds; "
+     "a snapshot reader / GetRdb only if the complete <off>_<size>.rdb exists; an altered closed segment is refused or served byte-correct.",
+     [{"pkg": "c08", "test": "TestC08",
+       "quick": {"checks": 48, "shards": 16, "timeout": 900},
+       "thorough": {"checks": 1600, "shards": 16, "timeout": 7200}}],
+     CACHE_ASSUME + ["crash model: files are written in order; a crash leaves a prefix of the newest file and complete older files (no reordering of writes across files)"])
